@@ -5,7 +5,11 @@ UNITS = {'dynbuf': dict(src=STREAM, mode='inl', roots=['_ZN8Pistache16DynamicStr
 HTTP = '/repo/src/common/http.cc'
 POW = '_ZN8Pistache4Http14ResponseWriter9putOnWireEPKcm'
 UNITS['pow'] = dict(src=HTTP, mode='sel', roots=[POW], stubs_re=r'^_ZN8Pistache3Tcp9Transport10asyncWriteI|^_ZN8Pistache5Async7PromiseIlE4thenI|^_ZN8Pistache5Async7PromiseIlE8rejectedI|^_ZNK8Pistache16DynamicStreamBuf6bufferEv|^_ZN8Pistache4Http7Timeout6disarmEv|^_ZNK8Pistache4Http14ResponseWriter4peerEv|^_ZN8Pistache5Async7PromiseIlED[02]Ev|^_ZN8Pistache9RawBufferD2Ev|^_ZN8Pistache5ErrorC[12]E|^_ZN8Pistache4Http6CookieC2ERKS1_|^_ZN8Pistache4Http6CookieD2Ev')
-HARNESSES = []
+_RS = '_ZN8Pistache4Http14ResponseStream'
+UNITS['rs'] = dict(src=HTTP, mode='sel', roots=[_RS + '5writeEPKcl', _RS + '5flushEv', _RS + '4endsEv'], stubs_re=r'^_ZN8Pistache3Tcp9Transport10asyncWriteI|^_ZNK8Pistache16DynamicStreamBuf6bufferEv|^_ZN8Pistache16DynamicStreamBuf5clearEv|^_ZN8Pistache4Http7Timeout6disarmEv|^_ZNK8Pistache4Http14ResponseStream4peerEv|^_ZN8Pistache5Async7PromiseIlED[02]Ev|^_ZN8Pistache9RawBufferD2Ev|^_ZN8Pistache5ErrorC[12]E|^_ZN8Pistache3Tcp9Transport5flushEv')
+HARNESSES = [dict(name='stream_chunks', units=['rs'], file='c05_stream.c', defs={'NW': 2}, unwind=5, hunwind=30, timeout=1200, fs=64,
+    bound='2 writes of 1..3 bytes, an optional flush after each, then ends(); EVERY maximum response size 0..40',
+    desc="(b') ResponseStream: per write <hex size> CRLF <data> CRLF, closed by 0 CRLF CRLF, all of it reaching the transport; a chunk cut short by the size limit is never followed by a successful ends()")]
 def pow_inst(nh, j0, j1, tiers, witness=False):
     return dict(name='put_on_wire_h%d_j%d%d' % (nh, j0, j1), units=['pow'], file='c05_wire.c', defs={'NHDRFIX': nh, 'JAR0': j0, 'JAR1': j1, 'VP_DISPATCH_ru8p_u8p': None, 'VP_DISPATCH_CUSTOM_ru8p_u8p': None, 'VP_DISPATCH_rvoid_u8p_u8p': None},
         unwind=5, hunwind=50, timeout=1500, fs=64, tiers=tiers, witness=witness,
@@ -28,4 +32,4 @@ ASSUMPTIONS = ['put_on_wire: std::ostream objects are ghost token logs over one 
                'writes are byte-wise puts: store into the put area or call the real overflow() when it is full (what sputc does; xsputn bulk copies are libstdc++)',
                'heap blocks are fixed-size (16 bytes, requests asserted to fit): sizes are checked functionally (storage size, put pointer, contents), not by CBMC bounds checks',
                'std::vector<char> growth (resize/_M_default_append) is the real inlined libstdc++ code over exact-size malloc blocks; allocation failure out of scope']
-OUTSIDE = ['numeric/locale formatting of std::ostream (num_put)', 'the client request writer (std::stringstream)', 'ResponseStream (chunked) sequencing; serveFile']
+OUTSIDE = ['numeric/locale formatting of std::ostream (num_put)', 'the client request writer (std::stringstream)', 'the ResponseStream constructor; serveFile']
